@@ -81,9 +81,37 @@ pub fn run(ctx: &mut Ctx) {
         assert!(firv::pool::enabled(), "the threads step needs the rayon feature");
         o.max_side = 110;
     }
+    let nearest_edge = ctx.sub == "nearest_edge";
     ctx.drive(
         total,
-        |_, idx| Some(gen_ccase(seed, "C13", idx, &o, false)),
+        |_, idx| {
+            let mut cc = gen_ccase(seed, "C13", idx, &o, false);
+            if nearest_edge {
+                // C11's hardest geometry through every container: Nearest with a sub-pixel crop box flush against
+                // the right/bottom edge of the (possibly cropped) source view
+                let mut rng = Rng::for_case(seed, "C13ne", idx);
+                let c = &mut cc.c;
+                cc.op = 0;
+                c.alg = Alg::Nearest;
+                c.sw = c.sw.max(2);
+                c.sh = c.sh.max(2);
+                let (w, h) = (c.sw as f64, c.sh as f64);
+                let ex = (w - pred(w)) * rng.range(1, 2) as f64;
+                let ey = (h - pred(h)) * rng.range(1, 2) as f64;
+                let cw = if rng.chance(2, 3) { ex } else { (w * rng.unit() + ex).min(w) };
+                let ch = if rng.chance(2, 3) { ey } else { (h * rng.unit() + ey).min(h) };
+                c.crop = Crop::Box([w - cw, h - ch, cw, ch]);
+                c.dw = rng.range(1, 5) as u32;
+                c.dh = rng.range(1, 5) as u32;
+                if !pair_supported(cc.sk, cc.dk) {
+                    cc.sk = SrcKind::Crop;
+                    cc.dk = DstKind::Typed;
+                }
+                cc.sp = gen_place(&mut rng, c.sw, c.sh, cc.sk.is_crop(), false);
+                cc.dp = gen_place(&mut rng, c.dw, c.dh, cc.dk.is_crop(), false);
+            }
+            Some(cc)
+        },
         describe,
         |cc, stats, viols| {
             let threads = if threads_step { [2usize, 3, 4, 8][(cc.c.sw as usize + cc.c.dh as usize) % 4] } else { 0 };
